@@ -74,7 +74,7 @@ def gen_op(rng):
         a = rng.choice([0, 0, rng.randrange(-50, 50)]); b = a + rng.choice([0, 1, 5, 1000])
         return ("randints", rng.randrange(0, 6), a, b)
     if k == 3: return ("shuffle", rng.choice([0, 1, 2, 3, 5, 8, 13]))
-    if k == 4: return ("choice", rng.choice([1, 1, 2, 3, 7, 50]))
+    if k == 4: return ("choice" if rng.random() < 0.6 else "choicew_u", rng.choice([1, 1, 2, 3, 7, 50]))
     if k == 5:
         n = rng.choice([1, 2, 2, 3, 4, 6]); ws = gen_weights(rng, n)
         return ("choicew" if rng.random() < 0.5 else "choice_w", n, ws)
@@ -90,7 +90,7 @@ def enc_op(op):
     if k == "randint": return [1, op[1], op[2]]
     if k == "randints": return [2, op[1], op[2], op[3]]
     if k == "shuffle": return [3, op[1]]
-    if k == "choice": return [4, op[1]]
+    if k in ("choice", "choicew_u"): return [4, op[1]]      # choicew without weights draws like choice and reports 1/n
     if k in ("choice_w", "choicew"): return [5, op[1], [s_q(w) for w in op[2]]]
     if k == "gausses": return [6, op[1]]
     if k == "randoms": return [7, op[1], s_q(op[2]), s_q(op[3])]
@@ -114,6 +114,8 @@ def impl_op(r, op):
             x = r.shuffle(list(range(op[1]))); return list(x), x
         if k == "choice":
             x = r.choice(list(range(op[1]))); return x, x
+        if k == "choicew_u":
+            x, w = r.choicew(list(range(op[1]))); return x, (x, w)
         if k == "choice_w":
             ws = [fl(w) for w in op[2]]
             x = r.choice(list(range(op[1])), ws); return [x, s_q(Fraction(ws[x]))], (x, ws[x])
@@ -148,6 +150,8 @@ def oracle(ctx, op, raw, case):
         if sorted(raw) != list(range(op[1])): ctx.fail(["shuffle", "not-permutation"], "shuffle result %r" % (raw,), case)
     elif k == "choice":
         if not (isinstance(raw, int) and 0 <= raw < op[1]): ctx.fail(["choice", "not-member"], "choice returned %r" % (raw,), case)
+    elif k == "choicew_u":
+        if not (isinstance(raw, tuple) and isinstance(raw[0], int) and 0 <= raw[0] < op[1] and raw[1] == 1 / op[1]): ctx.fail(["choice", "not-member"], "choicew without weights returned %r for %d items" % (raw, op[1]), case)
     elif k in ("choice_w", "choicew"):
         i, w = raw
         if not (0 <= i < op[1]): ctx.fail([k, "not-member"], "returned %r" % (raw,), case)
